@@ -74,13 +74,13 @@ T = {
          "is exactly the checksum comparison proved here plus the CRC/Adler arithmetic, whose collision resistance is not a theorem. Known finding K5 (a damaged zlib header is re-read as a bare stream) stays."),
  "C16": ("Theorems C16_text_only_for_text_types, C16_nothing_without_content_type / _for_non_text / _for_unknown_charset, C16_utf8_exact (utf8_decode succeeds iff valid and then "
          "re-encoding gives the body: no replacement character, BOM kept), C16_iso_8859_1_total (one character per byte, ASCII fixed). The two concrete decoders are compared with encoding_rs "
-         "exhaustively for 0-1 (quick) / 0-2 (thorough) byte bodies and structurally for multi-byte sequences.", "for_label and the other encodings are an oracle."),
+         "exhaustively for 0-1 (quick) / 0-2 (thorough) byte bodies and structurally for multi-byte sequences. C16_label_matched_case_insensitively / C16_label_normalisation_idempotent: encoding_rs's for_label is modelled as 'normalise (trim ASCII whitespace, lower-case), then look up' (the driver asks the real table with the normalised label on every text case), so case-insensitive label matching holds for every label table.", "The label table and the other encodings' decoders are an oracle."),
  "C17": ("Theorems C17_decimal_exact / C17_hex_exact (the crate's field parsers accept exactly 1*DIGIT / 1*HEXDIG fitting usize), "
          "C17_request_content_length (any accepted request under any delivery schedule: Content-Length value is digits only), C17_status_code, "
          "C17_chunk_size, C17_response_content_length, and C17_std_parser_extra (what the pre-fix std parsers accepted in addition: exactly a leading '+'). "
          "Correspondence: exhaustive short strings over a 16-symbol alphabet plus every single byte value in each of the fields, inserted non-digits, repeated Content-Length under deliveries.", ""),
  "C18": ("Theorems over header lists: C18_lookups_ignore_case, C18_response_framing_ignores_case + C18_resp_headers_uses_framing, C18_request_framing_ignores_case, C18_decode_body_ignores_case, C18_decode_text_ignores_case, C18_dechunk_rewrite_ignores_case. Theorems over message bytes: C18_header_block_parser_ignores_case (parsing blocks equal up to ASCII case gives the same answer, the same consumed count and lists equal up to case), C18_response_bytes and C18_request_bytes (any change of letter case inside the header block of a message leaves verdict, consumed count, start-line fields, body, trailing data and parser phase unchanged; stored headers equal up to case, also after the de-chunking rewrite), C18_chunked_response_bytes (for an accepted chunked response the letter case of the trailer section may change as well: same boundary, body and fields, headers equal up to case).",
-         "encoding_rs's label lookup being case-insensitive is a hypothesis."),
+         "C18_decode_text_ignores_case_any_table needs no hypothesis about encoding_rs any more: for_label = normalise then look up (Model/Coding.v label_norm, tied to the library on every text case); the label table stays a parameter."),
 }
 
 DEFAULT_TEXT = "see DESIGN.md section 6"
